@@ -19,6 +19,7 @@ def grids_for(rng, n):
     gs = []
     for i in range(n):
         gs.append(codec.gen_grid(rng, rng.choice(['2.0', '3.0', '3.0']), depth=rng.choice([0, 1, 2, 3])))
+    gs += codec.zone_sweep_grids(rng)        # one date-time in every mapped zone
     return gs
 
 
